@@ -5,7 +5,7 @@
    budget being the number of storage calls after which the process dies (counted from the first
    call of Start, so deaths inside start-up recovery — also of an incarnation that is itself
    recovering from a death — are included); [run_history c store0 h] starts from the empty store. *)
-From Verif Require Import Common.Base C01.Model C01.Spec C01.Proofs1 C01.Proofs2 C01.Proofs3 C01.Proofs4 C01.Proofs5 C01.Proofs6 C01.Proofs7 C01.Checker C01.Proofs8 C01.Proofs9 C01.Translated.
+From Verif Require Import Common.Base C01.Model C01.Spec C01.Proofs1 C01.Proofs2 C01.Proofs3 C01.Proofs4 C01.Proofs5 C01.Proofs6 C01.Proofs7 C01.Checker C01.Proofs8 C01.Proofs9 C01.Harness C01.Proofs10 C01.Translated.
 From Verif Require Generated.C01Queue Generated.C01Storage.
 From Coq Require Import Sorted Permutation.
 
@@ -234,6 +234,23 @@ Theorem checker_clause1_sound : forall st evs,
   clause1b st evs = true <-> (nothing_durable st -> forall r, In r (accepted evs) -> In r (handoffs evs)).
 Proof. exact clause1b_sound. Qed.
 Print Assumptions checker_clause1_sound.
+
+(* ---- LINK: what the model produces always passes the clause checker ----
+   [observe] builds the checker's input from the model's own run the way the harness builds it from the implementation's
+   (per incarnation: script, death flag, the results through code_of_res, the store).  For EVERY configuration and EVERY
+   history the verdict is 0: the checker never demands more than the model delivers (no false alarm is possible on behaviour
+   the model allows), and its verdicts and the theorems above are statements about the same thing.  Proved on decoded stores
+   (verdict_core); the byte level adds dec_store o enc_store (identity for indexes/ids < 2^64: codec_roundtrip). *)
+Theorem model_run_passes_clause_checker : forall c h, verdict_core (observe c store0 h) [] None = 0%nat.
+Proof. exact model_passes_checker_l. Qed.
+Print Assumptions model_run_passes_clause_checker.
+
+(* the ghost events the checker rebuilds from the results alone ARE the model's events *)
+Theorem checker_events_are_model_events : forall c st sc b,
+  i_events (incarnation c st sc b) =
+  obs_events sc (map code_of_res (i_obs (incarnation c st sc b))) (i_died (incarnation c st sc b)) [].
+Proof. exact incarnation_events_link. Qed.
+Print Assumptions checker_events_are_model_events.
 
 (* ---- translator obligations (T1 re-reads the Go source on every run; see C01/Translated.v) ---- *)
 Theorem t1_bytesToItemIndex_matches_go : forall buf,
